@@ -251,6 +251,14 @@ def build_srv():
     return build_harness("h_srv", ["h_srv.c"], SRV_OBJS, extra_flags=["-DIODINE_VERIF", "-pthread"], shim="shim_srv.h")
 
 
+CLI_OBJS = ["tun.c", "dns.c", "read.c", "encoding.c", "login.c", "base32.c", "base64.c", "base64u.c", "base128.c", "md5.c", "common.c"]
+
+
+def build_cli():
+    """h_cli: the real client.c (#included) and tun.c driven function by function"""
+    return build_harness("h_cli", ["h_cli.c"], CLI_OBJS, extra_flags=["-DIODINE_VERIF", "-pthread"], shim="shim_srv.h")
+
+
 class RunResult:
     def __init__(self, lines, rc, stderr):
         self.lines, self.rc, self.stderr = lines, rc, stderr
